@@ -274,7 +274,7 @@ def run(ctx, load):
     from .rules_c04 import check_seq_layout
     check_seq_layout(P, ctx, rule='C19.pointer-arithmetic')
     ctx.floors.pop(('C19.pointer-arithmetic', ctx.config), None)
-    ctx.floor('C19.pointer-arithmetic', 13)
+    ctx.floor('C19.pointer-arithmetic', 10)
     # the objects handed out by Tree and Table sit at offsets computed from the record layout: allocation size, key / value / header
     # offsets and the extents of the record moves must agree (shared with C03.layout / C02.layout)
     from .rules_c03 import check_layout as tree_layout
@@ -287,7 +287,7 @@ def run(ctx, load):
     for k in list(ctx.floors):
         if k[0].startswith(('C03.', 'C02.')):
             ctx.floors.pop(k)
-    ctx.floor('C19.embedded-object-layout', 20)
+    ctx.floor('C19.embedded-object-layout', 13)
     # a Box releases its pointee through del only (shared with C06.box): never a raw release of something it may not own
     from .rules_c06 import check_box
     before = len(ctx.obs)
